@@ -39,3 +39,16 @@ class ThinLens(SurfaceApodizer):
         sag = parabolic_surface_sag(-radius_of_curvature)
 
         self.surface_sag = sag
+
+    @property
+    def refractive_index(self):
+        '''The refractive index of the lens material.
+        '''
+        return self._refractive_index
+
+    @refractive_index.setter
+    def refractive_index(self, refractive_index):
+        self._refractive_index = refractive_index
+
+        # The focal length is kept, so the surface has to be recomputed for the new material.
+        self.focal_length = self._focal_length
